@@ -85,7 +85,19 @@ def run_case(ctx, name, params):
             return pop_acceptance
         pt.wrap_attr(Selector, "pop_acceptance", mk_acc)
         try:
-            p, a, err = insitu.run_one(setup, script=script if fail_rate else None)
+            extra_ = {}
+            if fail_rate and algo == "nsga2" and r.random() < 0.5:
+                # coarse declared precision: designs re-drawn after a failure lie on a grid and can coincide -- also with each other
+                prm_ = []
+                # the grid must be able to carry N distinct designs comfortably (12N..40N grid points), otherwise "N designs, none
+                # repeated" cannot be satisfied by any implementation
+                k_ = max(2, int(round((r.uniform(12, 40) * N) ** (1.0 / setup["n"]))))
+                for i_, (lb, ub) in enumerate(setup["bounds"]):
+                    prm_.append({"name": "x%d" % i_, "bounds": [lb, ub], "precision": (ub - lb) / k_})
+                extra_["params"] = prm_
+                fail_rate = max(fail_rate, 0.2)
+                ctx.count("runs_with_coarse_precision_and_failures")
+            p, a, err = insitu.run_one(setup, script=script if fail_rate else None, **extra_)
         finally:
             pt.restore()
         ctx.count("runs")
